@@ -30,6 +30,8 @@ def realize(spec):
         return bytes.fromhex(spec["v"])
     if t == "void":
         return np.void(bytes.fromhex(spec["v"]))
+    if t == "void0":  # the same opaque scalar, handed over as a 0-d array (h5py stores both identically)
+        return np.asarray(np.void(bytes.fromhex(spec["v"])))
     if t == "arr":
         return np.array(spec["v"], dtype=spec["dt"])
     if t == "empty":
@@ -136,10 +138,12 @@ def join(base, rel):
 class Tree:
     def __init__(self):
         self.root = MNode("g")
+        self.dead = []  # paths deleted or moved away so far (generator bookkeeping, not part of the state)
 
     def clone(self):
         t = Tree()
         t.root = self.root.clone()
+        t.dead = list(self.dead)
         return t
 
     # -- lookup
@@ -194,6 +198,9 @@ class Tree:
             raise OpFails("absent")
         parent = self.lookup("/" + "/".join(segs[:-1]))
         del parent.children[segs[-1]]
+        norm = "/" + "/".join(segs)
+        if norm not in self.dead:
+            self.dead.append(norm)
 
     def setattr(self, path, key, cvalue):
         n = self.lookup(path)
